@@ -582,3 +582,55 @@ class QueueTap(E1Prop):
 
     def nontrivial(self, w):
         return 'queue-evaluation-compared' in w.stats['probes']
+
+
+class WorkerTap(E1Prop):
+    """C13 with real jobs: whatever a real handler does or raises, the real
+    process_task returns, the job is recorded as finished with its status
+    and the current-job marker is cleared."""
+    ID = 'C13'
+    PROFILE = {'p_queue': 0.8, 'p_skip_queue': 0.3, 'p_stab': 0.3,
+               'p_hotfix': 0.25, 'ndev': [1, 2, 2, 3]}
+    WEIGHTS = {'open_pr': 6, 'ci': 3, 'ci_green_all': 7, 'deliver': 10,
+               'deliver_all': 3, 'api': 2.5, 'commit': 1, 'comment': 1.5,
+               'dup': 4, 'decline': 0.5, 'delete_src': 0.3, 'wcommit': 0.3,
+               'delete_w': 0.3, 'tag': 0.2, 'restart': 0.1}
+    GEN_KW = {'ci_green_bias': 0.85, 'max_prs': 3, 'adversarial': 0.3,
+              'api_jobs': ['force_merge', 'rebuild_queues', 'delete_queues',
+                           'eval_pr', 'create_branch', 'delete_branch']}
+    NOPS = (10, 26)
+
+    def begin(self, w, rng):
+        super().begin(w, rng)
+        # judged the moment process_task returns (one delivery may run
+        # several jobs before the op is over)
+        w.on_job_done = lambda rec: self.check_now(w, rec)
+
+    def check_now(self, w, rec):
+        if rec['killed']:
+            return
+        w.probe('real-job:%s' % (rec['job'].split(':')[0]))
+        if rec['crashed']:
+            raise Violation(
+                'C13', 'C13:worker-died:%s' % rec['crashed'].split(':')[0],
+                'process_task raised %s while serving job %s (status %s): '
+                'in the server the worker thread is gone and every later '
+                'request waits for ever' % (rec['crashed'], rec['job'],
+                                            rec['status']), {})
+        if 'current job' in w.berte.status:
+            raise Violation(
+                'C13', 'C13:marker-not-cleared',
+                'after job %s (%s) the current-job marker still says %r' % (
+                    rec['job'], rec['status'],
+                    w.berte.status.get('current job')), {})
+        done = list(w.berte.tasks_done)
+        if not done or not done[0].done or \
+                str(done[0].status) != str(rec["status"]):
+            raise Violation(
+                'C13', 'C13:job-not-recorded',
+                'job %s ended %s but the list of finished jobs ends with '
+                '%s' % (rec['job'], rec['status'],
+                        done and (str(done[0]), done[0].status)), {})
+
+    def nontrivial(self, w):
+        return w.stats['jobs'] >= 3
